@@ -225,7 +225,7 @@ def run_case(case, tier, seed):
                 except (solve.Unsupported, ValueError, TypeError):
                     continue
                 res['validation_points'] += 1
-                if abs(sa - ca) > 1e-7 * max(abs(sa), abs(ca)) + 1e-300:
+                if abs(sa - ca) > max(1e-7, case.conc_rel) * max(abs(sa), abs(ca)) + 1e-300:
                     res['validation_mismatch'].append(dict(case=case.name, claim=cl.name, symbolic=sa, concrete=ca))
         for cl in E.claims:
             res['claims'] += 1
